@@ -64,7 +64,10 @@ TRUSTED_EXTRA = [
     "hooks: 21 add-only verif_point!/verif_pause! lines in sync.rs and input_session.rs (labels phase:*); events of reader "
     "release, query return, set_input return and commit return are emitted by the harness itself around the public API calls; "
     "the `req` hooks are emitted before the poll that enqueues the task, so the driver lets a `req` event take effect anywhere "
-    "between its emission and the task's `acq` (other hooks' pauses may sit in between)",
+    "between its emission and the task's `acq` (other hooks' pauses may sit in between) — EXCEPT in cases marked `strict` (starvation "
+    "family on the current-thread runtime: no seeded yield at any pause, no gate, nothing runs in parallel), where the hook and the "
+    "enqueueing poll are consecutive instructions of one task and the driver keeps the `req` where it was emitted, so that the FIFO "
+    "order of the model's queue is checked against the order in which the code admits readers and writers",
     "multi-thread traces: hook emission is not atomic with the step, so each event has a window (previous event of the same "
     "task, own emission] and the driver searches a linearisation; queue order is unobservable there (unfair lock model)",
 ]
@@ -99,7 +102,7 @@ def _shard(args):
     ctx, binp, seed, n_ct, n_mt, idx, shards, exhaustive = args
     out = os.path.join(ctx.work, f"s{idx}")
     os.makedirs(out, exist_ok=True)
-    cmd = [binp, "--seed", str(seed), "--tier", "quick", "--out", out, "--n", str(n_ct), "--mt", str(n_mt),
+    cmd = [binp, "--seed", str(seed), "--tier", "quick", "--out", out, "--n", str(n_ct), "--mt", str(n_mt), "--starve", str(120 if exhaustive else 24),
            "--shard", str(idx), "--shards", str(shards)]
     if exhaustive: cmd += ["--exhaustive"]
     if ctx.replay:
